@@ -9,6 +9,7 @@ mod c12;
 mod c14;
 mod c15;
 mod c15w;
+mod c15d;
 mod c16;
 mod c16w;
 mod c17;
@@ -94,6 +95,7 @@ fn main() {
                 "c16_vard" => ("C16", c06s::part_vard(tier)),
                 "c18_shlib" => ("C18", c18s::part_shlib(tier)),
                 "c17_names" => ("C17", c17e::part_names(tier)),
+                "c15_dap" => ("C15", c15d::part_dap_data(tier)),
                 "c07_std" => ("C07", c06s::part_std(tier, true)),
                 "c09_real" => ("C09", mt::part_c09_real(tier)),
                 "c14_threads" => ("C14", mt::part_c14_threads(tier)),
@@ -237,6 +239,7 @@ fn run_check(id: &str, tier: Tier) -> i32 {
             let mut r = Report::new("C15", tier, "exploration");
             r.parts.push(c15::part_sweep(tier));
             r.parts.push(mt::part_c15_threads(tier));
+            r.parts.push(c15d::part_dap_data(tier));
             finish(r)
         }
         "C16" => {
